@@ -203,8 +203,9 @@ mutual
       match v with
       | .null => .ok
       | .obj kvs =>
-        -- decoded into a Go map first: of a duplicated key only the last member is seen
-        worst ((dedupLast kvs).map (fun kv =>
+        -- every member of the list (the real code sees the members of the decoded Go
+        -- map, i.e. of `dedupLast kvs`: equal when no key is duplicated, see Props/C17 §8)
+        worst (kvs.map (fun kv =>
           (check t kv.2).max (if isDirMap t && !legalName kv.1 then .error else .ok)))
       | _ => .error
     | .struct _ fs, v =>
@@ -284,11 +285,8 @@ mutual
       match v with
       | .null => (v, .ok)
       | .obj kvs =>
-        -- iterates over the decoded Go map (last member of a duplicated key); when no
-        -- member changes the real code returns its input bytes, which may still contain
-        -- the shadowed duplicates – the same object up to `dedupLast`
-        (.obj ((dedupLast kvs).map (fun kv => (kv.1, (filter t kv.2).1))),
-         worstF ((dedupLast kvs).map (fun kv => (filter t kv.2).2)))
+        (.obj (kvs.map (fun kv => (kv.1, (filter t kv.2).1))),
+         worstF (kvs.map (fun kv => (filter t kv.2).2)))
       | _ => (v, .fatal)
     | .struct _ fs, v =>
       match v with
@@ -373,8 +371,8 @@ inductive Shape : Ty → J → Prop where
   | user (n s : Bytes) : Shape (.user n) (.str s)
   | arr (t : Ty) (xs : List J) : (∀ x, x ∈ xs → Shape t x) → Shape (.arr t) (.arr xs)
   | tmap (t : Ty) (kvs : List (Bytes × J)) :
-      (∀ k v, getKey k kvs = some v → Shape t v) →
-      (isDirMap t = true → ∀ k v, getKey k kvs = some v → legalName k = true) →
+      (∀ kv, kv ∈ kvs → Shape t kv.2) →
+      (isDirMap t = true → ∀ kv, kv ∈ kvs → legalName kv.1 = true) →
       Shape (.tmap t) (.obj kvs)
   | struct (n : Bytes) (fs : Fields) (kvs : List (Bytes × J)) :
       (∀ k t, (k, t) ∈ fs.toList → (getKey k kvs).isSome = true) →
@@ -465,33 +463,6 @@ mutual
       (match fs'.get k with
         | none => true
         | some t' => pureNarrow t t') && pureNarrowFields r fs'
-end
-
-mutual
-  /-- no typed-map position of `v` (read at type `t`) has a duplicated key.
-  `filter` on a typed map answers with the last-wins normal form
-  (`dedupLast`); on such values that is the object itself. -/
-  def dupFree : Ty → J → Bool
-    | .base _, _ => true
-    | .user _, _ => true
-    | .arr t, v =>
-      match v with
-      | .arr xs => xs.all (fun x => dupFree t x)
-      | _ => true
-    | .tmap t, v =>
-      match v with
-      | .obj kvs => decide ((kvs.map Prod.fst).Nodup) && kvs.all (fun kv => dupFree t kv.2)
-      | _ => true
-    | .struct _ fs, v =>
-      match v with
-      | .obj kvs => dupFreeFields fs kvs
-      | _ => true
-  def dupFreeFields : Fields → List (Bytes × J) → Bool
-    | .nil, _ => true
-    | .cons k t r, kvs =>
-      (match getKey k kvs with
-        | none => true
-        | some v => dupFree t v) && dupFreeFields r kvs
 end
 
 /-- the two assignments that change the `(ArrayDim, MapDim)` shape of a
